@@ -238,3 +238,35 @@ Proof.
     apply (Forall2_nth _ _ _ k f m Hkept Hf Hm Hp). split; assumption.
   - exfalso. apply nth_error_None in Hm. assert (k < length fs) by (apply nth_error_Some; rewrite Hf; discriminate). lia.
 Qed.
+
+(* ---------------------------------------------------------------- crash -> load -> save before the check is done -> restart *)
+(* With the repaired save (the stored uncertain list is left alone while the download is not hash
+   checked) the intermediate session does not change the resume record at all, so what the final
+   session loads is what the first one saved: resume_sound / resume_sound_loss apply unchanged. *)
+Theorem resave_unchecked_identity r cl now :
+  (0 <? Params.c10_unc_kept_while_unchecked)%N = true -> resave_unchecked r cl now = r.
+Proof. intros Hf. unfold resave_unchecked. rewrite Hf. reflexivity. Qed.
+
+Corollary resume_sound_resave n ld fs r cl now valid :
+  (0 <? Params.c10_unc_kept_while_unchecked)%N = true ->
+  load n ld fs (opened n (length fs)) (resave_unchecked r cl now) = load n ld fs (opened n (length fs)) r /\
+  check (fst (load n ld fs (opened n (length fs)) (resave_unchecked r cl now))) valid =
+  check (fst (load n ld fs (opened n (length fs)) r)) valid.
+Proof. intros Hf. rewrite (resave_unchecked_identity r cl now Hf). split; reflexivity. Qed.
+
+(* Without the repair the history is unsound: the save erases the list (this session completed nothing),
+   the final load keeps the lost piece's bit and requests no recheck. *)
+Theorem resume_sound_resave_refuted :
+  (Params.c10_unc_kept_while_unchecked =? 0)%N = true ->
+  exists n ld fs r valid i,
+    snd (load n ld fs (opened n (length fs)) r) = Loaded /\
+    nth i (check (fst (load n ld fs (opened n (length fs)) r)) valid) false = false /\          (* lost piece caught by the first load *)
+    nth i (check (fst (load n ld fs (opened n (length fs)) (resave_unchecked r [] 1%Z))) valid) false = true /\
+    nth i valid false = false.
+Proof.
+  intros Hf.
+  exists 8, 10%Z, [mkFI 0 4 false 8192%N (Some (8192%N, 500%Z)); mkFI 4 8 false 8192%N (Some (8192%N, 500%Z))].
+  exists (mkR true (Some [FMap (MVal 500%Z); FMap (MVal 500%Z)]) (BVal 8) (Some [0;0;0;2]%N) (Some 5%Z)).
+  exists [true; true; false; true; true; true; true; true], 2.
+  revert Hf. vm_compute. intros Hq. repeat split; first [reflexivity | exact Hq | (exfalso; discriminate Hq)].
+Qed.
